@@ -13,6 +13,13 @@ pub const SIGMA_STR: &str = "a \n\t:#-?'\"\\[{,0.+~\ré";
 fn words() -> Vec<String> {
     let mut v: Vec<String> = ["null", "Null", "true", "False", "0x1", "0o7", "0o17", ".inf", "+.inf", "-.INF", ".nan", "1e3", "1.5", "-0", "+1", "---", "...", "--- a", "... a", "yes", "no", "on", "y", "=", "<<", "!t", "&a", "*a", "%x", "@a", "`a", "| a", "> a", "- a", "? a", "a: b", "a #b", "a# b", "#a", "[a]", "{a}", "a,b", "\u{feff}", "\u{85}", "\u{2028}", "a\u{a0}", "\u{0}", "\u{7f}", "\u{1b}", "😀", "0x+1", "+-0", "inf", "NaN", "1_000", "0.", ".5", "1e", "é: è"].iter().map(|s| s.to_string()).collect();
     v.push("k".repeat(1025));
+    v.push("\u{1}".repeat(200));
+    v.push("\"".repeat(600));
+    v.push("\t".repeat(700));
+    v.push(format!("{}:", "k".repeat(1023)));
+    v.push("é".repeat(1023));
+    v.push("k".repeat(1023));
+    v.push("k".repeat(1024));
     v.push("k".repeat(120));
     v.push(format!("{}\n", "k".repeat(200)));
     v
